@@ -42,7 +42,8 @@ type Lookup struct {
 type Case struct {
 	ID      int      `json:"id"`
 	Fam     string   `json:"fam"`
-	Raw     bool     `json:"raw"`
+	Raw     bool     `json:"raw"`   // engine option UseRawPath
+	Unesc   *bool    `json:"unesc"` // engine option UnescapePathValues (absent: the default, true)
 	Esc     bool     `json:"esc"`
 	Routes  []Route  `json:"routes"`
 	Orders  [][]int  `json:"orders"`
@@ -64,14 +65,15 @@ type obs struct {
 	full   string
 }
 
-func newEngine(raw bool) *route.Engine {
+func newEngine(raw, unesc bool) *route.Engine {
 	opt := config.NewOptions(nil)
 	opt.DisablePrintRoute = true
 	// "no match" must be observable as such: no redirects, no 405 probing of the other trees
 	opt.RedirectTrailingSlash = false
 	opt.RedirectFixedPath = false
 	opt.HandleMethodNotAllowed = false
-	opt.UseRawPath = raw // UnescapePathValues keeps its default (true)
+	opt.UseRawPath = raw
+	opt.UnescapePathValues = unesc
 	return route.NewEngine(opt)
 }
 
@@ -115,7 +117,8 @@ func register(e route.IRoutes, rt Route, id int, cur *obs) (outcome, msg string)
 }
 
 func runCase(tr *vtrace.Writer, c *Case) {
-	tr.Emit("Case", vtrace.Rec{"id": c.ID, "fam": c.Fam, "raw": c.Raw, "esc": c.Esc, "routes": c.Routes,
+	unesc := c.Unesc == nil || *c.Unesc
+	tr.Emit("Case", vtrace.Rec{"id": c.ID, "fam": c.Fam, "raw": c.Raw, "unesc": unesc, "esc": c.Esc, "routes": c.Routes,
 		"orders": c.Orders, "modes": c.Modes, "lookups": c.Lookups})
 	for o, perm := range c.Orders {
 		mode := "plain"
@@ -123,7 +126,7 @@ func runCase(tr *vtrace.Writer, c *Case) {
 			mode = c.Modes[o]
 		}
 		tr.Emit("Order", vtrace.Rec{"o": o + 1, "perm": perm, "mode": mode})
-		e := newEngine(c.Raw)
+		e := newEngine(c.Raw, unesc)
 		cur := &obs{}
 		grp := setup(e, mode, cur)
 		ok := true
